@@ -92,6 +92,9 @@ func checkC17(P *Prog, r *Result) {
 	// is one made in that call (C16's rule)
 	shareRule(P, r, checkC16, "C16/operands-read-only", nil, "C17/derivation-leaves-receiver", 2)
 	shareRule(P, r, checkC16, "C16/no-element-overwrite", nil, "C17/tests-not-replaced-in-place", 1)
+	// one schema object used at several places behaves at each as an independent copy would: what it leaves on the
+	// context it shares with its siblings (a caught failure at one field) does not reach the other place (C01's rule)
+	shareRule(P, r, checkC01, "C01/child-clean", nil, "C17/placement-independent", 15)
 	// ---- field-effects ----
 	for _, k := range R.Kinds {
 		kn := k.Obj().Name()
